@@ -28,6 +28,7 @@ func init() {
 			{ID: "C09.R4", Min: 2, Doc: "depth accounting: path enumeration of writeOne (AddInt64(+1) iff the file write succeeded) and moveForward (AddInt64(-1) once)", Run: c09r4},
 			{ID: "C09.R6", Min: 4, Doc: "handle follows segment number: on every path of a function that increments nextReadFileNum (writeFileNum), the cached readFile (writeFile) handle is nil when the function returns — otherwise the next read (write) continues on the old segment's handle while the cursor says new segment, position 0", Run: c09r6},
 			{ID: "C09.R7", Min: 3, Doc: "segment and metadata files are never truncated on open: the flag argument of every os.OpenFile in package nsqd is a constant (on every path) without O_TRUNC / O_APPEND / O_EXCL — the writer resumes inside an existing segment at the persisted position after a restart", Run: c09r7},
+			{ID: "C09.R8", Min: 2, Doc: "opening and closing never destroy data: no os.Remove / os.Rename / Truncate is reachable (over call and defer edges, not through the started ioLoop goroutine) from NewDiskQueue or from Close — a queue that is reopened finds every segment its metadata refers to", Run: c09r8},
 			{ID: "C09.R5", Min: 3, Doc: "sibling agreement: normalised roll conditions of readOne/writeOne; length header type and byte order; record size 4+len", Run: c09r5},
 		},
 	})
@@ -198,12 +199,10 @@ func c09r2(c *Check) {
 	for i, st := range sel.States {
 		if st.Dir == types.SendOnly {
 			// r is a local assigned d.readChan or nil
-			isRC := isFieldLoad(st.Chan, readChan)
-			if phi, ok := st.Chan.(*ssa.Phi); ok {
-				for _, e := range phi.Edges {
-					if isFieldLoad(e, readChan) {
-						isRC = true
-					}
+			isRC := false
+			for _, leaf := range valueLeaves(st.Chan, 6) {
+				if isFieldLoad(leaf, readChan) {
+					isRC = true
 				}
 			}
 			if isRC {
@@ -389,12 +388,18 @@ func c09r4(c *Check) {
 }
 
 func c09r5(c *Check) {
+	// readOne / writeOne together with the DiskQueue helper methods they are split into
+	allInstrsW := func(fn *ssa.Function, f func(ssa.Instruction)) {
+		for _, g := range workerFuncs(c.P, fn) {
+			allInstrs(g, f)
+		}
+	}
 	maxB := dqField(c, "maxBytesPerFile")
 	rollRel := func(fn *ssa.Function, posField string) (string, ssa.Instruction) {
 		posF := dqField(c, posField)
 		var rel string
 		var at ssa.Instruction
-		allInstrs(fn, func(in ssa.Instruction) {
+		allInstrsW(fn, func(in ssa.Instruction) {
 			ifi, ok := in.(*ssa.If)
 			if !ok {
 				return
@@ -433,7 +438,7 @@ func c09r5(c *Check) {
 	hdr := func(fn *ssa.Function, callee string, argIdx int) (string, bool) {
 		res := ""
 		be := false
-		allInstrs(fn, func(in ssa.Instruction) {
+		allInstrsW(fn, func(in ssa.Instruction) {
 			call, ok := in.(*ssa.Call)
 			if !ok || calleeName(call.Common()) != callee {
 				return
@@ -461,7 +466,7 @@ func c09r5(c *Check) {
 	// record size 4 + len
 	four := func(fn *ssa.Function) bool {
 		ok := false
-		allInstrs(fn, func(in ssa.Instruction) {
+		allInstrsW(fn, func(in ssa.Instruction) {
 			if bo, isBo := in.(*ssa.BinOp); isBo && bo.Op == token.ADD {
 				if k, isC := constInt(bo.X); isC && k == 4 {
 					ok = true
@@ -474,6 +479,88 @@ func c09r5(c *Check) {
 		return ok
 	}
 	c.Judge(four(ro) && four(wo), "nsqd record size is 4 + payload length on both sides", c.AtFn(ro), "positions advance by header + payload", "reader and writer no longer advance their positions by 4 + length")
+	// length limits: the reader may not refuse a record length that the writer accepts
+	limits := func(fn *ssa.Function, isLen func(v ssa.Value) bool) []string {
+		var out []string
+		allInstrsW(fn, func(in ssa.Instruction) {
+			ifi, ok := in.(*ssa.If)
+			if !ok {
+				return
+			}
+			// every comparison that takes part in the condition (a || b is lowered to a chain of Ifs)
+			cnd, neg := negStrip(ifi.Cond)
+			bo, ok := cnd.(*ssa.BinOp)
+			if !ok {
+				return
+			}
+			op := bo.Op
+			var other ssa.Value
+			switch {
+			case isLen(bo.X):
+				other = bo.Y
+			case isLen(bo.Y):
+				other = bo.X
+				op = flipRel(op)
+			default:
+				return
+			}
+			if neg {
+				op = negRel(op)
+			}
+			switch op {
+			case token.LSS, token.LEQ, token.GTR, token.GEQ:
+			default:
+				return
+			}
+			// a lower bound that no written record can violate
+			if k, ok := constInt(other); ok && (op == token.LSS && k <= 0 || op == token.LEQ && k < 0) {
+				return
+			}
+			out = append(out, "length "+op.String()+" "+describeVal(other))
+		})
+		sort.Strings(out)
+		return out
+	}
+	var hdrAlloc ssa.Value
+	allInstrsW(ro, func(in ssa.Instruction) {
+		if call, ok := in.(*ssa.Call); ok && calleeName(call.Common()) == "encoding/binary.Read" {
+			if mi, ok := call.Call.Args[2].(*ssa.MakeInterface); ok {
+				hdrAlloc = mi.X
+			}
+		}
+	})
+	rl := limits(ro, func(v ssa.Value) bool {
+		return hdrAlloc != nil && derivedFrom(v, hdrAlloc, map[ssa.Value]bool{})
+	})
+	wl := limits(wo, func(v ssa.Value) bool {
+		// len(data) of the record being written
+		for d := 0; d < 4; d++ {
+			if cv, ok := v.(*ssa.Convert); ok {
+				v = cv.X
+				continue
+			}
+			break
+		}
+		call, ok := v.(*ssa.Call)
+		if !ok {
+			return false
+		}
+		b, ok := call.Call.Value.(*ssa.Builtin)
+		return ok && b.Name() == "len" && call.Call.Args[0] == ssa.Value(wo.Params[1])
+	})
+	var onlyReader []string
+	for _, r := range rl {
+		found := false
+		for _, w := range wl {
+			if w == r {
+				found = true
+			}
+		}
+		if !found {
+			onlyReader = append(onlyReader, r)
+		}
+	}
+	c.Judge(len(onlyReader) == 0, "nsqd reader accepts every record length the writer accepts", c.AtFn(ro), fmt.Sprintf("reader limits %v ⊆ writer limits %v", rl, wl), fmt.Sprintf("the reader refuses records on %v, a limit the writer does not enforce: a record that was accepted, written and acknowledged is treated as corruption on read-back (its segment is set aside and everything in it is lost)", onlyReader))
 }
 
 func c09r6(c *Check) {
@@ -656,5 +743,40 @@ func c09r7(c *Check) {
 	}
 	if n == 0 {
 		anchorFail("nsqd: no os.OpenFile call")
+	}
+}
+
+func c09r8(c *Check) {
+	cg := c.P.CG()
+	destructive := map[string]bool{"os.Remove": true, "os.RemoveAll": true, "os.Rename": true, "os.Truncate": true, "(*os.File).Truncate": true}
+	for _, root := range []*ssa.Function{c.P.Func("nsqd", "", "NewDiskQueue"), c.P.Func("nsqd", "*DiskQueue", "Close")} {
+		via := cg.Reach([]*ssa.Function{root}, syncKinds, nil)
+		bad := ""
+		var at ssa.Instruction
+		var fns []*ssa.Function
+		for f := range via {
+			fns = append(fns, f)
+		}
+		sort.Slice(fns, func(i, j int) bool { return fns[i].String() < fns[j].String() })
+		for _, f := range fns {
+			f := f
+			allInstrs(f, func(in ssa.Instruction) {
+				cc := callCommon(in)
+				if cc == nil || !destructive[calleeName(cc)] || bad != "" {
+					return
+				}
+				// persistMetaData's rename of the temporary metadata file replaces, it does not destroy
+				if calleeName(cc) == "os.Rename" && pathOrigin(cc.Args[0], 0) == "metaDataFileName" {
+					return
+				}
+				bad = fmt.Sprintf("%s in %s (%s)", calleeName(cc), FuncName(f), strings.Join(cg.Chain(via, f), " → "))
+				at = in
+			})
+		}
+		pos := c.AtFn(root)
+		if at != nil {
+			pos = c.At(at)
+		}
+		c.Judge(bad == "", FuncName(root)+" does not remove or rename queue files", pos, fmt.Sprintf("%d functions reachable synchronously, none removes or renames a segment", len(via)), "opening / closing the queue can delete or set aside segment files: "+bad+" — undelivered messages that were safely on disk are gone after a restart")
 	}
 }
